@@ -31,6 +31,16 @@ def extract_scope(source, project):
     return scope
 
 
+def alias_loc(alias):
+    # type: (ast.alias) -> tuple[int, int] | None
+    """Position of the identifier an import alias binds (alias nodes have positions since 3.10)"""
+    if getattr(alias, 'end_col_offset', None) is None:
+        return None
+    if alias.asname:
+        return alias.end_lineno, alias.end_col_offset - len(alias.asname)  # type: ignore[return-value]
+    return alias.lineno, alias.col_offset
+
+
 def body_loc(body):
     # type: (list[ast.stmt]) -> tuple[int, int]
     """Position from which a block is entered (decorators of its first statement included)"""
@@ -191,7 +201,7 @@ class extract_visitor(NodeVisitor):
                 iname = name
                 self.top._imports.append(a.name)
 
-            declared_at = self.top.find_id_loc(name, start)
+            declared_at = alias_loc(a) or self.top.find_id_loc(name, start)
             self.flow.add_name(ImportedName(name, loc, declared_at, iname, None,
                                             qualified=qualified))
 
@@ -201,7 +211,7 @@ class extract_visitor(NodeVisitor):
         start = np(node)
         for a in node.names:
             name = a.asname or a.name
-            declared_at = self.top.find_id_loc(name, start)
+            declared_at = alias_loc(a) or self.top.find_id_loc(name, start)
             module = '.' * node.level + (node.module or '')
             if name == '*':
                 self.top._star_imports.append((loc, declared_at, module, self.flow))
